@@ -30,25 +30,32 @@ def selected (ctx : List Shard) (s : Shard) (q : Q) : List Nat :=
 
 /-! the input class on which the full statement is false on the unchanged tree (DESIGN §8): a `Branch` atom with
     an empty pattern is folded to TRUE, but evaluates to "the document is on a branch whose name contains/equals
-    the empty string".  `wf nb nt q`: with `nb = true` no `Branch` atom with an empty pattern anywhere the rewrites reach; with
+    the empty string".  `wf pb nt q`: every `Branch` atom the rewrites reach satisfies `pb pattern exact`; with
     `nt = true` no `type:repo` node (the shape of every query that reaches a shard: `typeRepoSearcher`
     has replaced those nodes before). -/
 mutual
-def wf (nb nt : Bool) : Q → Bool
-  | .and cs => wfL nb nt cs
-  | .or cs => wfL nb nt cs
-  | .not c => wf nb nt c
-  | .type t c => (!nt || t != 2) && wf nb nt c
-  | .boost _ c => wf nb nt c
-  | .caseScope c => wf nb nt c
-  | .branch pat _ => !nb || !pat.isEmpty
+def wf (pb : Str → Bool → Bool) (nt : Bool) : Q → Bool
+  | .and cs => wfL pb nt cs
+  | .or cs => wfL pb nt cs
+  | .not c => wf pb nt c
+  | .type t c => (!nt || t != 2) && wf pb nt c
+  | .boost _ c => wf pb nt c
+  | .caseScope c => wf pb nt c
+  | .branch pat e => pb pat e
   | _ => true
-def wfL (nb nt : Bool) : List Q → Bool
+def wfL (pb : Str → Bool → Bool) (nt : Bool) : List Q → Bool
   | [] => true
-  | c :: cs => wf nb nt c && wfL nb nt cs
+  | c :: cs => wf pb nt c && wfL pb nt cs
 end
 
-def hasEmptyBranch (q : Q) : Bool := !wf true false q
+/-- admit every `Branch` atom -/
+def anyBranch : Str → Bool → Bool := fun _ _ => true
+/-- admit `Branch` atoms with a non-empty pattern only -/
+def noEmpty : Str → Bool → Bool := fun pat _ => !pat.isEmpty
+/-- admit all `Branch` atoms except `Branch{Pattern: "", Exact: true}` -/
+def noExactEmpty : Str → Bool → Bool := fun pat e => !(pat.isEmpty && e)
+
+def hasEmptyBranch (q : Q) : Bool := !wf noEmpty false q
 
 /-- read `Branch ""` as TRUE (the reading under which folding it is harmless) -/
 def emptyBranchAsTrue : Q → Q
